@@ -224,6 +224,15 @@ func payloadScenario(random bool, bound int) *vsched.Scenario {
 				return "f(" + lib.Show(v) + ")"
 			}, opt, pay...)
 			result = append(result, res...)
+			// results of an interface type, some of them the nil interface (an error-returning f that mostly succeeds)
+			for _, v := range fpgo.PMap(func(v interface{}) error {
+				if v == nil || v == interface{}(0) {
+					return lib.ErrPayload
+				}
+				return nil
+			}, opt, pay...) {
+				result = append(result, "err:"+lib.Show(v))
+			}
 			ptrResult = fpgo.PMap(func(p *int) int {
 				vsched.Event("apply-ptr", p == nil)
 				if p == nil {
@@ -241,6 +250,13 @@ func payloadScenario(random bool, bound int) *vsched.Scenario {
 			for _, v := range pay {
 				want = append(want, "f("+lib.Show(v)+")")
 			}
+			for _, v := range pay {
+				var e error
+				if v == nil || v == interface{}(0) {
+					e = lib.ErrPayload
+				}
+				want = append(want, "err:"+lib.Show(e))
+			}
 			for _, e := range r.Events {
 				if e.Kind == "apply" {
 					applied = append(applied, "f("+e.Args[0].(string)+")")
@@ -257,7 +273,10 @@ func payloadScenario(random bool, bound int) *vsched.Scenario {
 				sort.Ints(pr)
 			}
 			sort.Strings(applied)
-			ws := append([]string{}, want...)
+			var ws []string
+			for _, v := range pay {
+				ws = append(ws, "f("+lib.Show(v)+")")
+			}
 			sort.Strings(ws)
 			if fmt.Sprint(applied) != fmt.Sprint(ws) {
 				fs = append(fs, e1.Fail("C16|"+fam+"|applications", "f was applied to %v, the list is %v", applied, ws))
